@@ -1,7 +1,11 @@
 //! Verification harness for jpreprocess/jbonsai: property-based testing and fuzzing.
 pub mod bundled;
+pub mod corpus;
+pub mod engine_util;
+pub mod hts_reader;
 pub mod props;
 pub mod runner;
 pub mod tape;
 pub mod tapegen;
 pub mod util;
+pub mod voice;
